@@ -113,7 +113,8 @@ Definition segs_handle (r : realm) (s : session) (m : cmsg) (oracle : N) : list 
   | CCall req opts proc args kw =>
       match call (r_cfg r) (lookup r) (r_now r) (r_dealer r) s req opts proc args kw oracle with
       | CallRefused d o => [SO o]
-      | CallAbort o => SO o :: segs_leave r sid
+      | CallAbort o =>
+          SO o :: segs_leave (r_set_dealer r (call_abort_dealer (lookup r) (r_dealer r) s req opts proc oracle)) sid
       | CallInvoked d callee o => segs_rmi (update_session (r_set_dealer r d) callee) o oracle
       end
   | CCancel req opts => [SO (snd (cancel (lookup r) (r_dealer r) sid req opts))]
@@ -363,7 +364,8 @@ Proof.
   - (* CALL *)
     destruct (call _ _ _ _ _ _ _ _ _ _ _) as [d o|o|d callee o].
     + cbn [fst snd]. apply decomp_so, bside_set_dealer.
-    + specialize (Lv r o (bside_refl r)). destruct (leave r (s_id s)) as [r1 o1]. exact Lv.
+    + match goal with |- context [leave ?ra (s_id s)] => specialize (Lv ra o (bside_set_dealer r _)); destruct (leave ra (s_id s)) as [r1 o1] end.
+      exact Lv.
     + eapply decomp_pre; [|apply decomp_rmi].
       destruct (update_session_frame (r_set_dealer r d) callee) as (A & _ & B & _ & _ & _ & C).
       repeat split; assumption.
